@@ -1040,6 +1040,7 @@ def canon_module(name):
 
 
 PY_BUILTINS = set(dir(__import__("builtins")))
+HARMLESS_DECORATORS = {"lru_cache", "cache", "wraps", "staticmethod", "classmethod", "property", "njit", "jit"}
 KNOWN_MODULES = {"np", "math", "linalg", "itertools", "copy", "warnings", "sys", "pd", "scipy", "locate", "ytools", "np.linalg", "pandas",
                  "functools", "operator", "types"}
 
@@ -1100,7 +1101,7 @@ class Interp:
         if val is None:
             if name in LIB or name in PY_BUILTINS:
                 val = Builtin(name)
-            elif name not in sc.bound and not sc.star:
+            elif name not in sc.bound and not sc.star and not (name.startswith("__") and name.endswith("__")):
                 raise PyError("NameError", f"name '{name}' is not defined")
             else:
                 val = F.sym(name)
@@ -1117,6 +1118,11 @@ class Interp:
         return Builtin(full)
 
     def make_func(self, node, fr):
+        for d in getattr(node, "decorator_list", []):
+            nm = d.func if isinstance(d, ast.Call) else d
+            nm = getattr(nm, "attr", getattr(nm, "id", None))
+            if nm not in HARMLESS_DECORATORS:
+                raise Unsupported(f"decorator `{_src(d)}` on {node.name}")
         a = node.args
         defaults = [self.eval(d, fr) for d in a.defaults]
         kwdefaults = [None if d is None else self.eval(d, fr) for d in a.kw_defaults]
@@ -1258,7 +1264,10 @@ class Interp:
 
     def e_NamedExpr(self, node, fr):
         v = self.eval(node.value, fr)
-        self.assign(node.target, v, fr, node)
+        tgt = fr
+        while tgt.comp and tgt.parent is not None:
+            tgt = tgt.parent           # a walrus inside a comprehension binds in the enclosing function
+        self.assign(node.target, v, tgt, node)
         return v
 
     def e_IfExp(self, node, fr):
@@ -1563,6 +1572,8 @@ class Interp:
                 return self.attr(base, s, node)
             if isinstance(key, Arr):
                 return base.take(_axis_select(len(base.ids), key))
+            if isinstance(key, LVal) and key.items and all(is_rat(k) and str_of(k) is not None for k in key.items):
+                return base.take(list(range(len(base.ids))), base._cols_by_label(key))
             raise Unsupported("table subscript")
         if is_rat(base):
             if G.same(base, NONE):
@@ -1681,7 +1692,16 @@ class Interp:
                 if r is not NotImplemented:
                     return r
             impl = LIB.get(f.name)
-            if impl is not None:
+            out = kwargs.get("out")
+            if impl is not None and isinstance(out, Arr) and f.name.startswith("np.") and _kwargs_understood(f.name, {k: v for k, v in kwargs.items() if k != "out"}):
+                # numpy's `out=`: the result is written into the given array (and returned)
+                r = impl(self, args, {k: v for k, v in kwargs.items() if k != "out"}, node)
+                if r is not NotImplemented:
+                    vals = bflat(r, out.shape)
+                    for o, v in zip(out.off, vals):
+                        out.buf[o] = v
+                    return out
+            if impl is not None and _kwargs_understood(f.name, kwargs):
                 r = impl(self, args, kwargs, node)
                 if r is not NotImplemented:
                     return r
@@ -1709,6 +1729,11 @@ class Interp:
         raise Unsupported(f"call of a {type(f).__name__}")
 
     def opaque_call(self, name, args, kwargs, node, obj=None):
+        # a call the evaluation has no model for is a value of its own - but only if it cannot have changed an object the evaluation tracks
+        mutable = [v for v in list(args) + list(kwargs.values()) + ([obj] if obj is not None else [])
+                   if isinstance(v, (Arr, LVal, DVal, InstVal, NSVal, Table))]
+        if "out" in kwargs or name in MUTATORS or (mutable and not name.startswith(PURE_PREFIXES) and name not in PURE_NAMES):
+            raise Unsupported(f"call of {name}, which is not modelled and may modify its argument")
         self.sh.calls.append((name, list(args), dict(kwargs), node))
         try:
             ws = ([wrap(obj)] if obj is not None else []) + [wrap(a) for a in args] + [F.fn("kw:" + k, wrap(v)) for k, v in kwargs.items()]
@@ -1785,6 +1810,8 @@ class Interp:
         table = METHODS.get(type(obj))
         if isinstance(obj, tuple):
             table = METHODS[tuple]
+        if kwargs and not _kwargs_understood("." + name, kwargs):
+            raise Unsupported(f"method {name} with keyword(s) {sorted(kwargs)}")
         if table is not None and name in table:
             r = table[name](self, obj, args, kwargs, node)
             if r is not NotImplemented:
@@ -2180,6 +2207,35 @@ def _handles(h, exc):
     return bool(names & {exc.kind, "Exception", "BaseException"}) or (exc.kind in ("IndexError", "KeyError") and "LookupError" in names)
 
 
+MUTATORS = {"np.put", "np.place", "np.copyto", "np.putmask", "np.put_along_axis", "np.random.shuffle", "random.shuffle", "np.fill_diagonal",
+            "np.add.at", "np.subtract.at", "np.multiply.at"}
+PURE_PREFIXES = ("np.", "math.", "linalg.", "scipy.", "itertools.", "functools.", "operator.", "copy.", "locate.", "ytools.")
+PURE_NAMES = PY_BUILTINS | {"warnings.warn"}
+
+
+# keyword arguments the models below implement; a call with any other keyword is not modelled (it stays an opaque application) - a keyword
+# must never be dropped silently (`out=`, `keepdims=`, `order="F"`, an integer `dtype=` change what the call does)
+HANDLED_KW = {"axis", "shape", "newshape", "axes", "start", "step", "repeats", "fill_value", "reverse", "refpoint", "grids"}
+
+
+def _kwargs_understood(name, kwargs):
+    for k, v in kwargs.items():
+        if k in HANDLED_KW:
+            continue
+        if k == "dtype" and (isinstance(v, Builtin) and v.name in ("float", "np.float64", "np.float32", "np.double") or (is_rat(v) and G.same(v, NONE))):
+            continue
+        if k in ("copy", "subok"):
+            continue
+        if k == "order" and is_rat(v) and str_of(v) == "C":
+            continue
+        if k == "key" and name in ("sorted",):
+            continue
+        if name in ("dict", "types.SimpleNamespace", "SimpleNamespace", "functools.partial"):
+            continue
+        return False
+    return True
+
+
 def _objectlike(v):
     """a formula that stands for an object the evaluation knows nothing about (a bare symbol or an opaque application)"""
     d = G.single_atom(v)
@@ -2375,11 +2431,18 @@ def L_dot(ip, args, kwargs, node):
 
 
 def L_cross(ip, args, kwargs, node):
-    a, b = as_arr(args[0]), as_arr(args[1])
-    if a.shape != (3,) or b.shape != (3,):
+    if kwargs or len(args) != 2:
         return NotImplemented
-    x, y = a.flat(), b.flat()
-    return Arr.new([_c3(x[1], y[2], x[2], y[1]), _c3(x[2], y[0], x[0], y[2]), _c3(x[0], y[1], x[1], y[0])], (3,))
+    a, b = as_arr(args[0]), as_arr(args[1])
+    if not a.ndim or not b.ndim or a.shape[-1] != 3 or b.shape[-1] != 3:
+        return NotImplemented
+    lead = bshape(a.shape[:-1], b.shape[:-1])
+    xs, ys = bflat(a, lead + (3,)), bflat(b, lead + (3,))
+    out = []
+    for k in range(0, len(xs), 3):
+        x, y = xs[k:k + 3], ys[k:k + 3]
+        out += [_c3(x[1], y[2], x[2], y[1]), _c3(x[2], y[0], x[0], y[2]), _c3(x[0], y[1], x[1], y[0])]
+    return Arr.new(out, lead + (3,))
 
 
 def _c3(a, b, c, d):
@@ -2907,6 +2970,57 @@ def L_einsum(ip, args, kwargs, node):
     return unbox(Arr.new(vals, tuple(dims[ch] for ch in out)))
 
 
+def L_flip(axis):
+    def f(ip, args, kwargs, node):
+        a = as_arr(args[0])
+        ax = axis if axis is not None else _axis(kwargs, args, 1)
+        axes = range(a.ndim) if ax is None else [ax % a.ndim]
+        key = tuple(G.slice_value(None, None, F.const(-1)) if k in axes else G.slice_value(None, None, None) for k in range(a.ndim))
+        return a.get(key)
+    return f
+
+
+def L_floor(kind):
+    def f(ip, args, kwargs, node):
+        def g(x):
+            c = G.const_of(x)
+            if c is None:
+                return F.fn(kind, x)
+            return F.const(math.floor(c) if kind == "floor" else (math.ceil(c) if kind == "ceil" else round(c)))
+        return lift1(g, args[0]) if len(args) == 1 else NotImplemented
+    return f
+
+
+def L_getattr(ip, args, kwargs, node):
+    name = str_of(args[1]) if len(args) >= 2 and is_rat(args[1]) else None
+    if name is None:
+        return NotImplemented
+    try:
+        return ip.attr(args[0], name, node)
+    except PyError:
+        if len(args) == 3:
+            return args[2]
+        raise
+
+
+def L_argwhere(ip, args, kwargs, node):
+    nz = L_nonzero(ip, args, kwargs, node)
+    if nz is NotImplemented:
+        return nz
+    return _stack("column_stack")(ip, [tuple(nz)], {}, node) if len(nz) else NotImplemented
+
+
+def L_compress(ip, args, kwargs, node):
+    data, sel = ip.iterate(args[0], node), ip.iterate(args[1], node)
+    return tuple(d for d, s_ in zip(data, sel) if ip.decide(s_, node))
+
+
+def L_islice(ip, args, kwargs, node):
+    items = ip.iterate(args[0], node)
+    ks = [None if (is_rat(a) and G.same(a, NONE)) else _int(a, "islice bound") for a in args[1:]]
+    return tuple(items[slice(*ks)])
+
+
 def L_noop(ip, args, kwargs, node):
     return NONE
 
@@ -2962,6 +3076,9 @@ LIB = {
     "itertools.count": L_count, "itertools.product": L_product, "itertools.chain": L_chain,
     "copy.copy": L_copy, "copy.deepcopy": L_copy, "np.ix_": L_ix, "np.diag": L_diag, "np.array_equal": L_array_equal,
     "print": L_noop, "warnings.warn": L_noop, "isinstance": L_isinstance,
+    "np.flip": L_flip(None), "np.flipud": L_flip(0), "np.fliplr": L_flip(1), "math.floor": L_floor("floor"), "math.ceil": L_floor("ceil"),
+    "np.floor": L_floor("floor"), "np.ceil": L_floor("ceil"), "round": L_floor("round"), "getattr": L_getattr,
+    "np.argwhere": L_argwhere, "itertools.compress": L_compress, "itertools.islice": L_islice,
     "np.einsum": L_einsum, "np.tile": L_tile, "np.repeat": L_repeat, "np.kron": L_kron, "np.block": L_block, "np.outer": L_outer, "np.swapaxes": L_swapaxes,
     "np.expand_dims": L_expand_dims, "np.fill_diagonal": L_fill_diagonal, "np.trace": L_trace, "np.prod": L_prod, "np.append": L_append,
     "np.take": L_take, "np.equal": _cmp_fn("Eq"), "np.not_equal": _cmp_fn("NotEq"), "np.greater": _cmp_fn("Gt"), "np.less": _cmp_fn("Lt"),
